@@ -774,8 +774,19 @@ func ruleINV5(c *Ctx) {
 				continue
 			}
 			hay, needle := call.Call.Args[0], call.Call.Args[1]
-			hayOK := isRangeKeyOf(hay, inner)
-			needleOK := isRangeKeyOf(needle, outer)
+			// the key of a snapshot map is the node's snapshot: GetSnapshot() of the range value is the same string
+			snapOf := func(v ssa.Value, l *Loop) bool {
+				call, ok := v.(*ssa.Call)
+				if !ok || !calleeNameIs(call, "GetSnapshot") {
+					return false
+				}
+				if call.Call.IsInvoke() {
+					return isRangeValueOf(call.Call.Value, l)
+				}
+				return len(call.Call.Args) == 1 && isRangeValueOf(call.Call.Args[0], l)
+			}
+			hayOK := isRangeKeyOf(hay, inner) || snapOf(hay, inner)
+			needleOK := isRangeKeyOf(needle, outer) || snapOf(needle, outer)
 			if !hayOK || !needleOK {
 				why = "strings.Contains arguments are not (key of " + pr.snap.Name() + ", key of variableSnapshotMap) in this order"
 				continue
